@@ -70,3 +70,57 @@ func (s *verifSystem) havocMemories() {
 		}
 	}
 }
+
+func cartInv(c mbc) bool {
+	switch m := c.(type) {
+	case *mbc1:
+		return mbc1Inv(m)
+	case *mbc2:
+		return int(m.romBank) < len(m.rom)
+	case *mbc3:
+		return int(m.romBank) < len(m.rom) && m.ramBank <= 0x0c // selectors 0D-0F are C11's subject
+	case *mbc5:
+		return int(m.romBank) < len(m.rom) && int(m.ramBank) < len(m.ram)
+	}
+	return true
+}
+
+// havocAll: every component arbitrary under its representation invariant (each proved inductive by the check named)
+func (s *verifSystem) havocAll() {
+	s.havocMemories()
+	vHavoc("oam", s.o)
+	vAssume(s.o.VerifDmaInv())
+	vHavoc("intr", s.intr)
+	vHavoc("timer", s.t)
+	vAssume(s.t.VerifInv()) // C12
+	vHavoc("pad", s.c)
+	vAssume(s.c.VerifInv()) // C22
+	l, r := s.a.VerifChans()
+	for i, part := range s.a.VerifParts() {
+		vHavoc(vN("apu", i), part)
+	}
+	s.a.VerifSetChans(l, r)
+	vAssume(s.a.VerifInv()) // C18
+	vHavoc("rtc", s.m.rtc)
+	vAssume(rtcInv(s.m.rtc)) // C10
+	switch c := s.m.mbc.(type) {
+	case *mbc1:
+		rom, ram := c.rom, c.ram
+		vHavoc("mbc", c)
+		c.rom, c.ram = rom, ram
+	case *mbc2:
+		rom, ram := c.rom, c.ram
+		vHavoc("mbc", c)
+		c.rom, c.ram = rom, ram
+		vHavoc("mbc2ram", c.ram)
+	case *mbc3:
+		rom, ram, rt := c.rom, c.ram, c.rtc
+		vHavoc("mbc", c)
+		c.rom, c.ram, c.rtc = rom, ram, rt
+	case *mbc5:
+		rom, ram := c.rom, c.ram
+		vHavoc("mbc", c)
+		c.rom, c.ram = rom, ram
+	}
+	vAssume(cartInv(s.m.mbc))
+}
